@@ -1,9 +1,119 @@
-(* C03 (stage 1) *)
-From Coq Require Import NArith List.
-From RV Require Import Lib.Hex Lib.SipHash Model.Shard.
-Import ListNotations.
-Local Open Scope N_scope.
+(* C03 - shard count is unobservable: N shards answer exactly like one shard.
+   Statements only; proofs are in Proofs/ShardProofs.v.  Model: Model/Shard.v (routing and the
+   dispatcher of production/sharded_actor.rs, generic in the per-shard executor), Model/MiniKV.v
+   (a concrete executor), Gen/KeyTable.v (regenerated from command.rs / sharded_actor.rs). *)
+From stdpp Require Import gmap.
+From Coq Require Import NArith ZArith String.
+From RV Require Import Lib.Hex Lib.SipHash Gen.KeyTable Model.Shard Model.MiniKV Proofs.ShardProofs.
 
-Theorem routes_agree_refuted : exists k n, route_str k n <> route_bytes k n.
-Proof. exists [102; 111; 111], 16. vm_compute. discriminate. Qed.
-Print Assumptions routes_agree_refuted.
+(* Both routing functions send every key to the same shard, for every shard count
+   (hash_key delegates to hash_key_bytes since /repo 36d66e2). *)
+Theorem routes_agree : forall k n, route_str k n = route_bytes k n.
+Proof. exact routes_agree_lemma. Qed.
+Print Assumptions routes_agree.
+
+(* Before that commit hash_key fed str::hash's stream (bytes ++ [0xFF]) to the hasher:
+   the two functions disagreed ("foo", 16 shards). *)
+Theorem routes_agree_refuted_before_fix : exists k n, route_str_before_fix k n <> route_bytes k n.
+Proof. exact routes_disagreed_before_fix. Qed.
+Print Assumptions routes_agree_refuted_before_fix.
+
+(* One request.  For every executor satisfying exec_ok, every shard count, every family of shards in
+   which each key is stored in its home shard, and every request of any entry path outside the
+   known-finding class: the N-shard server and the 1-shard server holding the union of the shards
+   give equivalent replies (equal; KEYS up to order), the 1-shard server ends with the union of
+   the N shards' new states, and every key is still stored in its home shard. *)
+Theorem shards_refine_one : forall V P (X : executor V P), exec_ok X ->
+  forall (sh : list (gmap (list N) V)) (rq : req P),
+  Homed home_str sh -> (0 < List.length sh)%nat -> SingleHome X home_str (List.length sh) rq ->
+  let rN := execN X home_str home_bytes sh rq in
+  let r1 := execN X home_str home_bytes [abs sh] rq in
+  reply_equiv rq rN.2 r1.2 /\ r1.1 = [abs rN.1] /\ Homed home_str rN.1 /\ List.length rN.1 = List.length sh.
+Proof. exact (@shards_refine_one_lemma). Qed.
+Print Assumptions shards_refine_one.
+
+(* Arbitrary request sequences, by induction. *)
+Theorem shards_refine_one_seq : forall V P (X : executor V P), exec_ok X ->
+  forall (rqs : list (req P)) (sh : list (gmap (list N) V)),
+  Homed home_str sh -> (0 < List.length sh)%nat -> Forall (SingleHome X home_str (List.length sh)) rqs ->
+  let rN := runN X home_str home_bytes sh rqs in
+  let r1 := runN X home_str home_bytes [abs sh] rqs in
+  replies_equiv rqs rN.2 r1.2 /\ r1.1 = [abs rN.1] /\ Homed home_str rN.1 /\ List.length rN.1 = List.length sh.
+Proof. exact (@shards_refine_one_seq_lemma). Qed.
+Print Assumptions shards_refine_one_seq.
+
+(* A server starts with N empty shards, which is a Homed family: the hypothesis of the two
+   theorems above holds initially and is preserved, so it holds in every reachable state. *)
+Theorem initial_state_homed : forall V n, Homed home_str (replicate n (∅ : gmap (list N) V)).
+Proof. exact (@Homed_empty). Qed.
+Print Assumptions initial_state_homed.
+
+(* Every shard count refines the same one-store reference semantics [ref1] (what MGET, MSET, DEL,
+   EXISTS, KEYS, DBSIZE, SCAN, FLUSH and the fast paths mean on a single keyspace). *)
+Theorem shards_refine_reference : forall V P (X : executor V P), exec_ok X ->
+  forall (sh : list (gmap (list N) V)) (rq : req P),
+  Homed home_str sh -> (0 < List.length sh)%nat -> SingleHome X home_str (List.length sh) rq ->
+  let rN := execN X home_str home_bytes sh rq in
+  reply_equiv rq rN.2 (ref1 X (abs sh) rq).2 /\ abs rN.1 = (ref1 X (abs sh) rq).1 /\
+  Homed home_str rN.1 /\ List.length rN.1 = List.length sh.
+Proof. exact (@shards_refine_reference_lemma). Qed.
+Print Assumptions shards_refine_reference.
+
+(* The classification the theorems rely on is what the code's tables say (Gen/KeyTable.v is
+   regenerated from command.rs and sharded_actor.rs on every run): every variant of enum Command
+   has a row; a variant counts as single-home exactly when get_keys lists at most one key or the
+   dispatcher has an arm for it; every variant without an arm is routed by the first key it lists
+   (and lists none if it has no primary key); the dispatcher's arms and guard are the model's; and a
+   well-formed command of a single-home variant never has keys on two shards. *)
+Theorem key_table_sound :
+  (forall t, In t kt_variants -> exists p spec, table_row t = Some (p, spec)) /\
+  (forall t p spec, table_row t = Some (p, spec) ->
+     tag_single_home t = at_most_one_key spec || in_tags t dispatch_arms) /\
+  (forall t p spec, table_row t = Some (p, spec) -> in_tags t dispatch_arms = false ->
+     head_consistent p spec = true /\ (p = PNone -> spec = [])) /\
+  dispatch_arms = model_arms /\ dispatch_guards = [("Del", "keys.len() > 1")]%string /\
+  (forall P (home : nat -> list N -> nat) n tag ks (p : P),
+     tag_single_home tag = true -> WfCmd (COp tag ks p) -> ~ CrossShard home n (COp tag ks p)).
+Proof. exact key_table_sound_lemma. Qed.
+Print Assumptions key_table_sound.
+
+(* Known finding C03-cross-shard-keys: the class excluded above is not empty.  On 2 shards, after
+   one single-home request, RPOPLPUSH / LMOVE / RENAME / RENAMENX / MSETNX / SORT..STORE whose two
+   keys live on different shards, followed by one single-home probe, are answered differently by
+   2 shards and by 1 shard ... *)
+Theorem two_key_refuted :
+  refuted_by [Generic (COp "LPush" [d1] (ArgL [va]))] (COp "RPopLPush" [d1; d0] ArgNone) (Generic (COp "LLen" [d0] ArgNone)) /\
+  refuted_by [Generic (COp "LPush" [d1] (ArgL [va]))] (COp "LMove" [d1; d0] (ArgDir false true)) (Generic (COp "LLen" [d0] ArgNone)) /\
+  refuted_by [Generic (COp "Set" [k1] (ArgB va))] (COp "Rename" [k1; k0] ArgNone) (Generic (COp "Get" [k0] ArgNone)) /\
+  refuted_by [Generic (COp "Set" [k1] (ArgB va))] (COp "RenameNx" [k1; k0] ArgNone) (Generic (COp "Get" [k0] ArgNone)) /\
+  refuted_by [Generic (COp "Set" [k0] (ArgB va))] (COp "MSetNx" [k1; k0] (ArgL [va; vb])) (FastGet false k0) /\
+  refuted_by [Generic (COp "RPush" [d1] (ArgL [vb; va]))] (COp "Sort" [d1; d0] ArgNone) (Generic (COp "LLen" [d0] ArgNone)).
+Proof. exact two_key_witnesses. Qed.
+Print Assumptions two_key_refuted.
+
+(* ... and so is the keyless, state-dependent RANDOMKEY (asked of shard 0 only). *)
+Theorem keyless_refuted :
+  refuted_by [Generic (COp "Set" [k1] (ArgB va))] (COp "RandomKey" [] ArgNone) (Generic (CPing None)).
+Proof. exact keyless_witness. Qed.
+Print Assumptions keyless_refuted.
+
+(* The class named in known_findings.jsonl is exactly what SingleHome excludes. *)
+Theorem known_class_excluded : forall V P (X : executor V P) home n (rq : req P),
+  KnownClass X home n rq -> ~ SingleHome X home n rq.
+Proof. exact (@KnownClass_not_SingleHome). Qed.
+Print Assumptions known_class_excluded.
+
+(* The hypotheses are satisfiable: Model/MiniKV.v is an executor satisfying exec_ok, ... *)
+Example C03_executor_exists : exec_ok mini.
+Proof. exact mini_ok. Qed.
+Print Assumptions C03_executor_exists.
+
+(* ... and a concrete 3-shard run over all entry paths is inside SingleHome, touches two different
+   shards and answers like one shard. *)
+Example C03_nonvacuous :
+  Forall (SingleHome mini home_str 3) ex_run /\
+  home_str 3 d0 <> home_str 3 d1 /\
+  (runN mini home_str home_bytes (replicate 3 ∅) ex_run).2 = (runN mini home_str home_bytes [∅] ex_run).2 /\
+  (runN mini home_str home_bytes (replicate 3 ∅) ex_run).2 = ex_replies.
+Proof. exact ex_run_ok. Qed.
+Print Assumptions C03_nonvacuous.
